@@ -1568,6 +1568,9 @@ def run_c12(ctx):
     ctx.cov['exhaustive'] = True
     ctx.cov['explanation'] = ('exhaustive for the TLC configurations listed in tlc_runs (every enumerated input rendered, every '
                               'dumped table state re-executed); random beyond them')
+    # behaviour beyond the listed property (DESIGN 10.6): the plot templates
+    import conf_plottmpl
+    ctx.extra('PlotTmpl', conf_plottmpl.run, tlc.workdir('c12plottmpl'))
 
 
 def replay_case(rep):
